@@ -1722,7 +1722,10 @@ class RTCSctpTransport(AsyncIOEventEmitter):
         if channel.readyState not in ["closing", "closed"]:
             channel._setReadyState("closing")
 
-            if self._association_state == self.State.ESTABLISHED:
+            if (
+                self._association_state == self.State.ESTABLISHED
+                and channel.id is not None
+            ):
                 # queue a stream reset
                 self._reconfig_queue.append(channel.id)
                 if len(self._reconfig_queue) == 1:
